@@ -29,7 +29,7 @@ class Unit(object):
     def __init__(self, name, fn, bounds=None, max_paths=3000, replay=None,
                  exceptions_are_violations=True, expect_reach=True, tol=1e-6,
                  verdict_timeout_ms=None, program=None, time_budget_s=None,
-                 allow_aborts=False, n_programs=None):
+                 allow_aborts=False, n_programs=None, optional=False):
         self.name = name
         self.fn = fn
         self.bounds = bounds or {}
@@ -43,6 +43,11 @@ class Unit(object):
         self.time_budget_s = time_budget_s
         self.allow_aborts = allow_aborts
         self.n_programs = n_programs if n_programs is not None else (1 if program is not None else 0)
+        # optional = a seed-generated extra program: an obligation the solver cannot decide there (unknown, or a
+        # counter-model that does not reproduce on the real code) removes that obligation from the claim -- it is
+        # listed in the evidence as undecided -- instead of making the whole check inconclusive.  Reproduced
+        # violations, exceptions and aborts are reported as for any other unit.
+        self.optional = optional
 
 
 class FunctionHits(object):
@@ -144,6 +149,15 @@ def run_unit(unit, tier):
         res["inconclusive"].append({"unit": unit.name, "label": "path/time budget exhausted", "kind": "budget"})
     if unit.expect_reach and s["queries"] == 0:
         res["inconclusive"].append({"unit": unit.name, "label": "no obligation reached (vacuous)", "kind": "vacuous"})
+    res["undecided_optional"] = []
+    if unit.optional:
+        keep = []
+        for i in res["inconclusive"]:
+            if i.get("kind") in ("solver-unknown", "assertion"):
+                res["undecided_optional"].append({"unit": unit.name, "label": i.get("label"), "kind": i.get("kind")})
+            else:
+                keep.append(i)
+        res["inconclusive"] = keep
     res["wall_s"] = round(time.time() - t0, 3)
     res["stdout_tail"] = out_buf.getvalue()[-300:]
     return res
@@ -318,6 +332,7 @@ def run_check(check, tier, seed, jobs=None, only=None):
         "stubs": check.stubs,
         "known_findings_matched": sorted({f["match"] for f, _ in known}),
         "inconclusive": [{"unit": i.get("unit"), "label": i.get("label"), "kind": i.get("kind")} for i in inconclusive][:20],
+        "undecided_on_generated_programs": [u for r in results for u in r.get("undecided_optional", [])][:40],
         "violations": [{"unit": v["unit"], "label": v["label"], "replay_file": v.get("replay_file")} for v in violations][:20],
         "per_unit": [{"unit": r["unit"], "paths": r["summary"]["paths"], "queries": r["summary"]["queries"],
                       "unsat": r["summary"]["queries_unsat"], "solver_s": r["summary"]["solver_time_s"],
@@ -348,10 +363,12 @@ def run_check(check, tier, seed, jobs=None, only=None):
 
     for l in lines:
         print(l)
+    n_undec = sum(len(r.get("undecided_optional", [])) for r in results)
     s = ("%s %s: units=%d paths=%d queries=%d unsat=%d sat=%d unknown=%d solver=%.1fs wall=%.1fs "
-         "violations=%d known=%d inconclusive=%d" % (
+         "violations=%d known=%d inconclusive=%d%s" % (
              check.id, tier, len(units), agg["paths"], agg["queries"], agg["queries_unsat"], agg["queries_sat"],
-             agg["queries_unknown"], agg["solver_time_s"], wall, len(violations), len(kf_printed), len(inconclusive)))
+             agg["queries_unknown"], agg["solver_time_s"], wall, len(violations), len(kf_printed), len(inconclusive),
+             (" undecided-on-generated-programs=%d (outside the claim, listed in the evidence)" % n_undec) if n_undec else ""))
     print(s)
     if violations:
         for v in violations[:5]:
@@ -373,7 +390,7 @@ def _worker(i):
     except BaseException as e:
         return {"unit": _UNITS[i].name, "bounds": _UNITS[i].bounds, "program": _UNITS[i].program, "n_programs": 0,
                 "summary": {"paths": 0, "queries": 0, "queries_unsat": 0, "solver_time_s": 0.0},
-                "violations": [], "functions": {}, "reach": {}, "witnesses": {}, "samples": [],
+                "violations": [], "functions": {}, "reach": {}, "witnesses": {}, "samples": [], "undecided_optional": [],
                 "theory": {"side_queries": 0, "instances": 0, "secs": 0.0}, "wall_s": 0.0,
                 "inconclusive": [{"unit": _UNITS[i].name, "label": "harness error: %r" % (e,), "kind": "harness-error",
                                   "tb": traceback.format_exc()[-1500:]}]}
